@@ -27,6 +27,7 @@
 # Richard Gast and Daniel Rose et. al. in preparation
 from ._io import _complete_template_path
 from .node import NodeTemplate
+from copy import deepcopy
 from .operator import OperatorTemplate
 from .edge import EdgeTemplate
 from .circuit import CircuitTemplate
@@ -35,6 +36,7 @@ from .population import PopulationTemplate, Connectivity
 known_template_classes = dict()
 
 template_cache = dict()
+_loaded_circuits = dict()  # path -> pristine copy of every CircuitTemplate in template_cache
 
 
 def register_template_class(name, cls):
@@ -72,6 +74,12 @@ def from_yaml(path):
     if path in template_cache:
         # if we have loaded this template in the past, return what has been cached
         template = template_cache[path]
+        if path in _loaded_circuits:
+            # circuit templates are mutable (`update_var`, `add_edges_from_matrix`, `run`/`get_run_func` with `in_place=True`
+            # change the instance they are called on): hand out - and cache - a fresh copy of the circuit as it was loaded,
+            # so that changing a loaded circuit never changes what later `from_yaml` calls of the same path return
+            template = deepcopy(_loaded_circuits[path])
+            template_cache[path] = template
     else:
         # if it has not been cached yet, load the file and parse into dict
         from pyrates.frontend.fileio.yaml import dict_from_yaml
@@ -101,6 +109,8 @@ def from_yaml(path):
             template = cls(**template_dict)
 
         template_cache[path] = template
+        if isinstance(template, CircuitTemplate):
+            _loaded_circuits[path] = deepcopy(template)
 
     return template
 
@@ -129,3 +139,4 @@ def to_yaml(template, path: str, **kwargs) -> None:
 def clear_cache():
     """Shorthand to clear template cache for whatever reason."""
     template_cache.clear()
+    _loaded_circuits.clear()
